@@ -872,7 +872,19 @@ def _structural(draw, kind, conts, slots, setslot):
                 cand += [(c, i) for i in range(len(c["m"]) - 1) if "m" in c["m"][i][1]]
             else:
                 cand += [(c, i) for i in range(len(c["l"]) - 1) if "l" in c["l"][i]]
-        if cand:
+        head = []       # ... or the neighbour that precedes it, to the front (moves the opening delimiter)
+        for c in conts:
+            if "m" in c:
+                head += [(c, i) for i in range(1, len(c["m"])) if "m" in c["m"][i][1]]
+            else:
+                head += [(c, i) for i in range(1, len(c["l"])) if "l" in c["l"][i]]
+        if head and (not cand or draw(st.booleans())):
+            c, i = _pick(draw, head)
+            if "m" in c:
+                c["m"][i][1]["m"].insert(0, c["m"].pop(i - 1))
+            else:
+                c["l"][i]["l"].insert(0, c["l"].pop(i - 1))
+        elif cand:
             c, i = _pick(draw, cand)
             if "m" in c:
                 c["m"][i][1]["m"].append(c["m"].pop(i + 1))
@@ -887,10 +899,16 @@ def _structural(draw, kind, conts, slots, setslot):
                 cand += [(c, i) for i in range(len(c["l"])) if c["l"][i].get("l")]
         if cand:
             c, i = _pick(draw, cand)
-            if "m" in c:
-                c["m"].insert(i + 1, c["m"][i][1]["m"].pop())
-            else:
-                c["l"].insert(i + 1, c["l"][i]["l"].pop())
+            if draw(st.booleans()):
+                if "m" in c:
+                    c["m"].insert(i + 1, c["m"][i][1]["m"].pop())
+                else:
+                    c["l"].insert(i + 1, c["l"][i]["l"].pop())
+            else:           # first element out, in front of the nested container
+                if "m" in c:
+                    c["m"].insert(i, c["m"][i][1]["m"].pop(0))
+                else:
+                    c["l"].insert(i, c["l"][i]["l"].pop(0))
     elif kind == "split":
         def splittable(x):
             return ("s" in x and len(x["s"]) >= 2) or ("i" in x and x["i"] >= 10)
@@ -928,7 +946,9 @@ def _structural(draw, kind, conts, slots, setslot):
                 kv[0], kv[1] = {"s": k + v[0], "q": "d"}, {"s": v[1:], "q": "d"}
     elif kind == "splice-key":
         # two neighbouring items -> one item whose key spells the serialised first item and the second key
-        cand = [(c, i) for c in conts for i in range(len(c.get("m") or []) - 1)]
+        keep = ("vars", "hosts", EXCL)     # swallowing these only makes the play unverifiable
+        cand = [(c, i) for c in conts for i in range(len(c.get("m") or []) - 1)
+                if c["m"][i][0].get("s") not in keep and c["m"][i + 1][0].get("s") not in keep]
         if cand:
             c, i = _pick(draw, cand)
             (k1, v1), (k2, v2) = c["m"][i], c["m"][i + 1]
@@ -968,6 +988,9 @@ def _digest_case(draw):
             b = copy.deepcopy(tree)
         else:
             b = _apply_edit(draw, tree, kind, excluded if region == "excluded" else None)
+            if b == tree:       # the play offers no site for this edit: change a scalar instead
+                kind = "scalar-fallback"
+                b = _apply_edit(draw, tree, "scalar", excluded if region == "excluded" else None)
         bs.append({"b": b, "edit": kind, "region": region})
     return {"mode": mode, "a": tree, "bs": bs}
 
